@@ -7,7 +7,7 @@ from scenario import simple_cert
 
 NEEDS = ["acmed"]
 LABELS_TPL = ["C10_Template"]
-LABELS = ["C10_Order", "C10_ByType", "C10_OneAtATime", "C10_AbortUnlessAllowed", "C10_Env", "C10_Vars", "C10_FileBracket", "C10_StdinStdout"]
+LABELS = ["C10_CleanAfterValidation", "C10_Order", "C10_ByType", "C10_OneAtATime", "C10_AbortUnlessAllowed", "C10_Env", "C10_Vars", "C10_FileBracket", "C10_StdinStdout"]
 PROFILES = [["challenge-http-01"], ["challenge-http-01", "challenge-http-01-clean"], ["post-operation"],
             ["file-pre-create", "file-pre-edit", "file-post-create", "file-post-edit"], ["challenge-http-01-clean", "post-operation"],
             ["file-post-create", "file-post-edit", "challenge-http-01", "post-operation"], ["file-pre-create", "file-pre-edit", "challenge-http-01-clean"]]
@@ -22,6 +22,7 @@ MC_CFG = """SPECIFICATION MCSpec
 CONSTANTS
   Enforce = %s
   Deviations = {}
+  OwedCap <- MCOwedCap
 INVARIANTS NoBad Emit
 CHECK_DEADLOCK FALSE
 """
@@ -178,11 +179,11 @@ def hooks_layer(x):
             elif ev == "ReqEnd":
                 last_req = {"ok": bool(e["is_success"]), "status": e["status"]}
             elif ev == "AttemptEnd":
-                out.append({"e": "EndRun"})
+                out.append({"e": "EndRun", "ok": bool(e.get("is_success"))})
         elif src == "ca" and ev == "CaReq" and e.get("kind") == "authz" and (e.get("detail") or {}).get("ident"):
             cur_authz = e["detail"]
         elif src == "drv" and ev == "DaemonEnd":
-            out.append({"e": "EndRun"})
+            out.append({"e": "EndRun", "ok": False})
         elif src == "hook" and ev == "HookRun":
             if e["phase"] == "start":
                 out.append({"e": "Start", "hook": e["hook"]})
